@@ -1,7 +1,374 @@
 import Driver.Common
-open Lean Drv
+import NriModel.Stub
+open Lean Drv Nri
+
+/-!
+Driver for C15. One case = one stub session:
+`in  = {kind:"session", type, name, idx, cfg:{config,rname,rver,regto,reqto,events,err}, reqs:[…]}`
+`obs = {create, regname, regidx, start, cfgcalls, cfgerr, cfgevents, regtons, reqtons, reqs:[…], extra, note}`.
+
+`agree`: the observation equals what `Stub.setupHandlers` / `Stub.dispatch` compute.
+`spec` : the property's predicates evaluated on the observation itself, using only the
+         specification vocabulary of Stub.lean (`slotOfEvent`, `argsFor`, `replyFor`) and the
+         handler bits of the generated plugin type — not `dispatch`.
+-/
 namespace Drv.C15
-/-- placeholder until the property's driver is written -/
-def judge (_ : Json) : Except String Verdict := .error "C15 driver not implemented"
+open Nri.Stub Nri.Events
+
+abbrev B := String
+
+def slotName : Slot → String
+  | .configure => "Configure" | .synchronize => "Synchronize" | .shutdown => "Shutdown"
+  | .runPodSandbox => "RunPodSandbox" | .updatePodSandbox => "UpdatePodSandbox"
+  | .stopPodSandbox => "StopPodSandbox" | .removePodSandbox => "RemovePodSandbox"
+  | .postUpdatePodSandbox => "PostUpdatePodSandbox" | .createContainer => "CreateContainer"
+  | .startContainer => "StartContainer" | .updateContainer => "UpdateContainer"
+  | .stopContainer => "StopContainer" | .removeContainer => "RemoveContainer"
+  | .postCreateContainer => "PostCreateContainer" | .postStartContainer => "PostStartContainer"
+  | .postUpdateContainer => "PostUpdateContainer"
+
+/-- canonical text of an invocation, the common currency of model, spec and observation -/
+def optS : Option B → String
+  | none => "∅"
+  | some s => "«" ++ s ++ "»"
+
+def listS (l : List B) : String := "[" ++ ",".intercalate (l.map fun s => "«" ++ s ++ "»") ++ "]"
+
+def argsS : Args B → String
+  | .config c r v => s!"config({U c}|{U r}|{U v})"
+  | .sync ps cs => s!"sync({listS ps};{listS cs})"
+  | .none => "none()"
+  | .pod p => s!"pod({optS p})"
+  | .podCtr p c => s!"podCtr({optS p},{optS c})"
+  | .podCtrRes p c r => s!"podCtrRes({optS p},{optS c},{optS r})"
+  | .podOvhRes p o r => s!"podOvhRes({optS p},{optS o},{optS r})"
+
+def callS (c : Call B) : String := slotName c.method ++ ":" ++ argsS c.args
+
+def optStr (j : Json) (k : String) : Option String :=
+  match j.getObjVal? k with
+  | .ok (Json.str s) => some s
+  | _ => none
+
+/-- an observed invocation, rendered in the same canonical text -/
+def obsCallS (j : Json) : Except String String := do
+  let m ← getStr j "m"
+  let k ← getStr j "k"
+  let a ← getArr j "a"
+  let a : List (Option B) := a.map fun x => match x with | Json.str s => some s | _ => none
+  let s ← getStrList j "s"
+  let pods ← getStrList j "pods"
+  let ctrs ← getStrList j "ctrs"
+  let body := match k, a, s with
+    | "config", _, [c, r, v] => s!"config({c}|{r}|{v})"
+    | "sync", _, _ => s!"sync({listS pods};{listS ctrs})"
+    | "none", _, _ => "none()"
+    | "pod", [p], _ => s!"pod({optS p})"
+    | "podCtr", [p, c], _ => s!"podCtr({optS p},{optS c})"
+    | "podCtrRes", [p, c, r], _ => s!"podCtrRes({optS p},{optS c},{optS r})"
+    | "podOvhRes", [p, o, r], _ => s!"podOvhRes({optS p},{optS o},{optS r})"
+    | _, _, _ => s!"?{k}"
+  pure (m ++ ":" ++ body)
+
+def obsCalls (j : Json) (k : String) : Except String (List String) := do
+  (← getArr j k).mapM obsCallS
+
+/-- result of a request in canonical text: `err:<kind>:<payload>` or `ok:<reply>` -/
+def replyS : Reply B → String
+  | .configure ev => s!"configure({ev.toNat})"
+  | .synchronize u more => s!"synchronize({listS u},{more})"
+  | .shutdown => "empty"
+  | .createContainer a u => s!"create({optS a},{listS u})"
+  | .updateContainer u => s!"updates({listS u})"
+  | .stopContainer u => s!"updates({listS u})"
+  | .updatePodSandbox => "empty"
+  | .stateChange => "empty"
+
+def resultS : Except Err (Reply B) → String
+  | .ok r => "ok:" ++ replyS r
+  | .error (.handler msg) => "err:handler:" ++ U msg
+  | .error (.unhandled x) => s!"err:unhandled:{x.toNat}"
+  | .error .noHandlers => "err:nohandlers"
+
+structure ErrO where
+  set : Bool
+  kind : String
+  msg : String
+  extra : Int
+
+def getErr (j : Json) (k : String) : Except String ErrO := do
+  let e ← getObj j k
+  pure { set := getBoolD e "set", kind := getStrD e "kind", msg := getStrD e "msg", extra := getIntD e "extra" (-1) }
+
+/-- the observed result of request `op`, rendered like `resultS` -/
+def obsResultS (op : String) (ro : Json) : Except String String := do
+  let e ← getErr ro "err"
+  if e.set then
+    if e.kind == "handler" then pure ("err:handler:" ++ e.msg)
+    else if e.kind == "unhandled" then pure s!"err:unhandled:{e.extra}"
+    else pure s!"err:{e.kind}"
+  else
+    let u ← getStrList ro "updates"
+    let adj := optStr ro "adjust"
+    let more := getBoolD ro "more"
+    pure <| "ok:" ++ match op with
+      | "CreateContainer" => s!"create({optS adj},{listS u})"
+      | "UpdateContainer" | "StopContainer" => s!"updates({listS u})"
+      | "Synchronize" => s!"synchronize({listS u},{more})"
+      | _ => "empty"
+
+def decReq (q : Json) : Except String (Request B × HResult B × String) := do
+  let op ← getStr q "op"
+  let ev ← getInt q "event"
+  let pod := optStr q "pod"
+  let ctr := optStr q "ctr"
+  let res := optStr q "res"
+  let ovh := optStr q "ovh"
+  let script : HResult B := { adjust := optStr q "adjust", updates := ← getStrList q "updates",
+                              err := let e := getStrD q "err"; if e == "" then none else some (S e) }
+  let r : Request B ← match op with
+    | "CreateContainer" => pure (.createContainer pod ctr)
+    | "UpdateContainer" => pure (.updateContainer pod ctr res)
+    | "StopContainer" => pure (.stopContainer pod ctr)
+    | "UpdatePodSandbox" => pure (.updatePodSandbox pod ovh res)
+    | "StateChange" => if ev < 0 then throw "negative event" else pure (.stateChange ev.toNat pod ctr)
+    | "Synchronize" => pure (.synchronize (← getStrList q "pods") (← getStrList q "ctrs") (getBoolD q "more"))
+    | "Shutdown" => pure .shutdown
+    | o => throw s!"unknown op {o}"
+  pure (r, script, op)
+
+def eventName (e : Nat) : String :=
+  match slotOfEvent e with
+  | some s => slotName s
+  | none => s!"event{e}"
+
+def judge (j : Json) : Except String Verdict := do
+  let inp ← getObj j "in"
+  let obs ← getObj j "obs"
+  let ty ← getNat inp "type"
+  let p : Plugin := { ev := BitVec.ofNat 13 ty, configure := ty / 8192 % 2 == 1,
+                      synchronize := ty / 16384 % 2 == 1, shutdown := ty / 32768 % 2 == 1 }
+  let cfg ← getObj inp "cfg"
+  let reqs ← getArr inp "reqs"
+  let name ← getStr inp "name"
+  let idx ← getStr inp "idx"
+  let note := getStrD obs "note"
+  let oCreate ← getStr obs "create"
+  let oStart := getStrD obs "start"
+  let implMask : Nat := ty % 8192
+  let popcount : Nat := ((List.range 13).filter (fun i => (ty % 8192).testBit i)).length
+  let mut cover : List String := ["session", s!"handlers:{popcount}",
+    s!"aux:{(if p.configure then "C" else "-") ++ (if p.synchronize then "S" else "-") ++ (if p.shutdown then "D" else "-")}"]
+  let mut agree := true
+  let mut spec := true
+  let mut why := ""
+  let mut sig := ""
+  -- every session decides something: creation, the configured mask, or dispatch
+  let nontrivial := true
+  -- an observation that is a hang or a crash never satisfies the property
+  if note.startsWith "crashed" || note.startsWith "blocked" || oStart == "blocked" || note == "stop blocked" then
+    return { agree := false, spec := false, why := s!"implementation {if note == "" then "blocked in Start" else note}",
+             sig := "C15:hang-or-crash", cover := cover ++ ["hang-or-crash"], nontrivial := true }
+  if note.startsWith "harness" then
+    return { agree := false, spec := true, why := note, cover := cover }
+  -- creation ------------------------------------------------------------------------
+  let specCreate := (implMask == 0) == (oCreate == "nohandlers") && (implMask != 0) == (oCreate == "ok")
+  if !specCreate then
+    spec := false; sig := "C15:none"
+    why := s!"handler set {implMask}: stub creation gave {oCreate}"
+  match setupHandlers p with
+  | .error _ =>
+    cover := "create:nohandlers" :: cover
+    if oCreate != "nohandlers" then
+      agree := false
+      if why == "" then why := s!"model: creation fails; impl: {oCreate}"
+    return { agree, spec, why, sig, cover, nontrivial := true, model := Json.mkObj [("create", "nohandlers")] }
+  | .ok hd =>
+    cover := "create:ok" :: cover
+    if oCreate != "ok" then
+      return { agree := false, spec, why := if why == "" then s!"model: creation succeeds; impl: {oCreate}" else why,
+               sig, cover, nontrivial := true }
+    -- registration carries the configured identity through
+    if getStrD obs "regname" != name || getStrD obs "regidx" != idx then
+      agree := false
+      why := s!"registered as {getStrD obs "regidx"}-{getStrD obs "regname"}, configured {idx}-{name}"
+    -- configuration -----------------------------------------------------------------
+    let asked : Nat ← getNat cfg "events"
+    let cerr := getStrD cfg "err"
+    let cb : Behaviour B := fun _ _ => { events := BitVec.ofNat 32 asked, err := if cerr == "" then none else some (S cerr) }
+    let cc ← getStr cfg "config"
+    let cr ← getStr cfg "rname"
+    let cv ← getStr cfg "rver"
+    let regto ← getInt cfg "regto"
+    let reqto ← getInt cfg "reqto"
+    let d0 : Dyn B := {}
+    let o := dispatch hd cb d0 (.configure (S cc) (S cr) (S cv) regto reqto)
+    let mCalls := o.calls.map callS
+    let mRes := resultS o.result
+    let oCfgCalls ← obsCalls obs "cfgcalls"
+    let oCfgErr ← getErr obs "cfgerr"
+    let oEvents ← getNat obs "cfgevents"
+    let oRes := if oCfgErr.set then
+        (if oCfgErr.kind == "handler" then "err:handler:" ++ oCfgErr.msg
+         else if oCfgErr.kind == "unhandled" then s!"err:unhandled:{oCfgErr.extra}" else s!"err:{oCfgErr.kind}")
+      else s!"ok:configure({oEvents})"
+    if mCalls != oCfgCalls then
+      agree := false
+      if why == "" then why := s!"configure calls: model {mCalls} impl {oCfgCalls}"
+    -- The message text of the unhandled-events error is the stub's own; compare the bits only if
+    -- it carried them. A failed Configure makes Start tear the connection down while the ttRPC
+    -- server is still about to send the error status: the runtime end sees either that status
+    -- or a closed connection (a race in the implementation; both mean "rejected").
+    let mFailed := mRes.startsWith "err:"
+    let resAgree := mRes == oRes ||
+      (oCfgErr.set && oCfgErr.kind == "unhandled" && oCfgErr.extra == -1 && mRes.startsWith "err:unhandled:") ||
+      (mFailed && oCfgErr.set && oCfgErr.kind == "transport")
+    if mFailed && oCfgErr.set then
+      cover := (if oCfgErr.kind == "transport" then "configure-rejected:connection-closed" else "configure-rejected:status") :: cover
+    if !resAgree then
+      agree := false
+      if why == "" then why := s!"configure result: model {mRes} impl {oRes}"
+    let startOk := match o.result with | .ok _ => true | .error _ => false
+    if startOk != (oStart == "ok") then
+      agree := false
+      if why == "" then why := s!"start: model {if startOk then "ok" else "error"} impl {oStart}"
+    if o.dyn.regTimeoutNs != getIntD obs "regtons" || o.dyn.reqTimeoutNs != getIntD obs "reqtons" then
+      agree := false
+      if why == "" then why := s!"timeouts: model {o.dyn.regTimeoutNs}/{o.dyn.reqTimeoutNs} impl {getIntD obs "regtons"}/{getIntD obs "reqtons"}"
+    -- spec: subscription (directly on the observation)
+    let eff : Nat := if p.configure then asked else 0
+    let within := (eff &&& implMask) == eff     -- asked ⊆ implemented (both < 2^32)
+    let maskClass :=
+      if !p.configure then "mask:no-configure"
+      else if cerr != "" then "mask:configure-error"
+      else if asked == 0 then "mask:zero"
+      else if asked == implMask then "mask:exact"
+      else if within then "mask:subset"
+      else if (asked &&& implMask) == 0 then "mask:disjoint"
+      else if (asked &&& implMask) == implMask then "mask:superset"
+      else "mask:overlap"
+    cover := maskClass :: cover
+    if p.configure && cerr != "" then
+      if !(oCfgErr.set && ((oCfgErr.kind == "handler" && oCfgErr.msg == cerr) || oCfgErr.kind == "transport")) then
+        spec := false; sig := "C15:configure:error-not-passed"
+        why := s!"Configure failed with '{cerr}', runtime saw {oRes}"
+      if oCfgCalls != [s!"Configure:config({cc}|{cr}|{cv})"] then
+        spec := false; sig := "C15:configure:call"
+        why := s!"Configure invocations {oCfgCalls}"
+    else
+      if p.configure && oCfgCalls != [s!"Configure:config({cc}|{cr}|{cv})"] then
+        spec := false; sig := "C15:configure:call"
+        why := s!"Configure invocations {oCfgCalls}, sent ({cc}|{cr}|{cv})"
+      if !p.configure && oCfgCalls != [] then
+        spec := false; sig := "C15:configure:call"
+        why := s!"no Configure method, yet invocations {oCfgCalls}"
+      if eff == 0 then
+        -- subscribed to exactly the implemented events: bit e-1 ⇔ handler for e, nothing else
+        if oCfgErr.set || oEvents != implMask then
+          spec := false
+          let diff := if oCfgErr.set then 0 else oEvents ^^^ implMask
+          let e := (List.range 32).find? (fun i => diff.testBit i) |>.getD 0
+          sig := if oCfgErr.set then "C15:mask:error" else s!"C15:mask:{eventName (e + 1)}"
+          why := s!"handlers {implMask} (bits), subscribed {oRes}"
+      else if within then
+        if oCfgErr.set || oEvents != eff then
+          spec := false; sig := "C15:configure:subset-not-honoured"
+          why := s!"implemented {implMask}, asked {eff} (a subset), got {oRes}"
+      else
+        if !oCfgErr.set then
+          spec := false; sig := "C15:configure:unhandled-accepted"
+          why := s!"implemented {implMask}, asked {eff} (names an event without handler), accepted with {oEvents}"
+    if !startOk then
+      return { agree, spec, why, sig, cover, nontrivial := true, model := Json.mkObj [("configure", mRes)] }
+    -- requests ----------------------------------------------------------------------
+    let oReqs ← getArr obs "reqs"
+    if oReqs.length != reqs.length then
+      agree := false
+      if why == "" then why := s!"{reqs.length} requests sent, {oReqs.length} observed"
+    let mut d := o.dyn
+    -- spec-side bookkeeping of collected synchronisation chunks
+    let mut accP : List B := []
+    let mut accC : List B := []
+    for (q, ro) in reqs.zip oReqs do
+      let (rq, script, op) ← decReq q
+      let b : Behaviour B := fun _ _ => script
+      let out := dispatch hd b d rq
+      d := out.dyn
+      let mC := out.calls.map callS
+      let mR := resultS out.result
+      let oC ← obsCalls ro "calls"
+      let oR ← obsResultS op ro
+      if mC != oC then
+        agree := false
+        if why == "" then why := s!"{op} calls: model {mC} impl {oC}"
+      if mR != oR then
+        agree := false
+        if why == "" then why := s!"{op} result: model {mR} impl {oR}"
+      -- spec, directly on the observation ------------------------------------------
+      let scriptErr := getStrD q "err"
+      match rq with
+      | .synchronize pods ctrs more =>
+        cover := s!"op:Synchronize:{if more then "more" else "final"}" :: cover
+        if !p.synchronize then
+          if !(oC.isEmpty && oR == s!"ok:synchronize([],{more})") then
+            spec := false; sig := "C15:sync:no-handler"
+            why := s!"no Synchronize method: calls {oC}, reply {oR}"
+        else if more then
+          accP := accP ++ pods; accC := accC ++ ctrs
+          if !(oC.isEmpty && oR == "ok:synchronize([],true)") then
+            spec := false; sig := "C15:sync:chunk"
+            why := s!"More chunk: calls {oC}, reply {oR}"
+        else
+          let want := s!"Synchronize:sync({listS (accP ++ pods)};{listS (accC ++ ctrs)})"
+          accP := []; accC := []
+          let wantR := if scriptErr != "" then "err:handler:" ++ scriptErr
+                       else s!"ok:synchronize({listS script.updates},false)"
+          if oC != [want] then
+            spec := false; sig := "C15:sync:deliver"
+            why := s!"final chunk: calls {oC}, expected [{want}]"
+          else if oR != wantR then
+            spec := false; sig := "C15:sync:passthrough"
+            why := s!"Synchronize returned {wantR}, runtime saw {oR}"
+      | .shutdown =>
+        cover := "op:Shutdown" :: cover
+        let want := if p.shutdown then ["Shutdown:none()"] else []
+        if oC != want || oR != "ok:empty" then
+          spec := false; sig := "C15:shutdown"
+          why := s!"Shutdown: calls {oC}, reply {oR}"
+      | .configure .. => pure ()
+      | _ =>
+        let e : Nat := (← getInt q "event").toNat
+        let msg : Msg B := ⟨optStr q "pod", optStr q "ctr", optStr q "res", optStr q "ovh"⟩
+        -- is this the request the runtime uses for event e?
+        let proper := match slotOfEvent e with
+          | some _ => (op == "StateChange") == !(e == 4 || e == 8 || e == 10 || e == 12)
+          | none => false
+        if proper then
+          let s := (slotOfEvent e).getD .shutdown
+          let has := implMask.testBit (e - 1)
+          cover := s!"op:{slotName s}:{if has then "handled" else "absent"}" :: cover
+          if scriptErr != "" && has then cover := "reply:error" :: cover
+          let wantC := if has then [callS ⟨s, argsFor e msg⟩] else []
+          let wantR := if has then
+              (if scriptErr != "" then "err:handler:" ++ scriptErr else "ok:" ++ replyS (replyFor e script))
+            else "ok:" ++ replyS (emptyReplyFor (β := B) e)
+          if oC != wantC then
+            spec := false; sig := s!"C15:dispatch:{slotName s}"
+            why := s!"event {slotName s} (handler {if has then "present" else "absent"}): invoked {oC}, expected {wantC}"
+          else if oR != wantR then
+            spec := false; sig := s!"C15:passthrough:{slotName s}"
+            why := s!"event {slotName s}: handler returned {wantR}, runtime saw {oR}"
+        else
+          cover := s!"op:StateChange:foreign" :: cover
+          if !(oC.isEmpty && oR == "ok:empty") then
+            spec := false; sig := "C15:dispatch:foreign-event"
+            why := s!"StateChange with event {e} (no notification handler exists): invoked {oC}, reply {oR}"
+    let extra ← obsCalls obs "extra"
+    if !extra.isEmpty then
+      agree := false; spec := false; sig := "C15:dispatch:stray"
+      why := s!"invocations after the last reply: {extra}"
+    return { agree, spec, why, sig, cover := cover.eraseDups, nontrivial,
+             model := Json.mkObj [("configure", mRes)] }
+
 def main : IO UInt32 := runLines judge
 end Drv.C15
